@@ -119,7 +119,7 @@ func (u *Unit) oblige(st *State, name, kind string, tags []string, goal *Term, c
 		u.obls = append(u.obls, o)
 		return o
 	}
-	hyps := st.hyps()
+	hyps := st.hypsFor(goal)
 	if ex, ok := u.except[name]; ok {
 		hyps = append(hyps, Not(ex)) // known finding: the obligation is proved on the complement of its predicate
 	}
@@ -1226,6 +1226,9 @@ func (u *Unit) run(st *State, fr *Frame, b *ssa.BasicBlock, idx int) []Outcome {
 				}
 				if !cond.IsTrue() {
 					s.assume(cond)
+					if m := IntMirror(cond); m != nil {
+						s.assume(m)
+					}
 					f.symBranch = true
 					if !u.feasible(s) {
 						return
